@@ -36,7 +36,7 @@ COMPONENTS = {
     'simulated': ['source device (independent chunk plans)', 'frozen clock and PRNG', 'delimiter / layout knobs'],
     'models': ['refmodel.ack_parser (body extraction)', 'own traversal of the error tree'],
 }
-MUT = ['seg_delete', 'seg_dup', 'seg_swap', 'seg_move', 'retag', 'extra_ele', 'extra_comp', 'drop_all_ele', 'lowercase_id',
+MUT = ['empty_seg', 'seg_delete', 'seg_dup', 'seg_swap', 'seg_move', 'retag', 'extra_ele', 'extra_comp', 'drop_all_ele', 'lowercase_id',
        'gs_unknown_map', 'bht_tspc']
 
 
